@@ -1,6 +1,8 @@
 package main
 
 import (
+	"fmt"
+
 	"github.com/bluenviron/mediacommon/v2/pkg/formats/fmp4"
 )
 
@@ -106,6 +108,56 @@ func (processSlice) Corpus() [][]string {
 			{{SequenceNumber: 1, Tracks: []*fmp4.PartTrack{{ID: 1, BaseTime: 1000, Samples: rbSmp("H264", 1, 300)}, {ID: 2, BaseTime: 533, Samples: rbSmp("Opus", 1, 100)}}}},
 			{{SequenceNumber: 2, Tracks: []*fmp4.PartTrack{{ID: 2, BaseTime: 633, Samples: rbSmp("Opus", 1, 100)}}}}})
 		add(&rbScn{prim: "media", lead: true, audio: "none", must: "err", fault: "no-leading-data", streams: []*rbScnStream{st}})
+	}
+	// truncation at EVERY box boundary of an init and of a two-fragment segment (and one byte before it), and at every
+	// packet boundary of an MPEG-TS segment: deterministic, on every run
+	mkFMP4 := func() *rbScn {
+		st := rbCorpusStream([]*fmp4.InitTrack{h264(1), {ID: 2, TimeScale: 44100, Codec: rbFMP4Codec("MPEG4Audio")}}, []fmp4.Parts{{
+			{SequenceNumber: 1, Tracks: []*fmp4.PartTrack{{ID: 1, BaseTime: 1000, Samples: rbSmp("H264", 2, 300)}, {ID: 2, BaseTime: 490, Samples: rbSmp("MPEG4Audio", 2, 100)}}},
+			{SequenceNumber: 2, Tracks: []*fmp4.PartTrack{{ID: 1, BaseTime: 1600, Samples: rbSmp("H264", 1, 300)}}}}})
+		return &rbScn{prim: "media", lead: true, audio: "none", must: "any", streams: []*rbScnStream{st}}
+	}
+	if probe := mkFMP4(); probe.streams[0].build() == nil {
+		for _, p := range rbBoundaries(probe.streams[0].initBytes) {
+			if p >= len(probe.streams[0].initBytes) {
+				continue
+			}
+			sc := mkFMP4()
+			sc.streams[0].build()
+			sc.streams[0].initBytes = sc.streams[0].initBytes[:p]
+			sc.closeAt, sc.faults, sc.fault = -1, 1, fmt.Sprintf("bytes:init:trunc@%d", p)
+			out = append(out, sc.toCase().ops())
+		}
+		seg := probe.streams[0].files[0]
+		for _, p := range rbBoundaries(seg) {
+			for _, q := range []int{p - 1, p} {
+				if q < 0 || q >= len(seg) {
+					continue
+				}
+				sc := mkFMP4()
+				sc.streams[0].build()
+				sc.streams[0].files[0] = sc.streams[0].files[0][:q]
+				sc.closeAt, sc.faults, sc.fault = -1, 1, fmt.Sprintf("bytes:seg:trunc@%d", q)
+				out = append(out, sc.toCase().ops())
+			}
+		}
+	}
+	mkTS := func() *rbScn {
+		st := &rbScnStream{container: "ts", ext: "ts", kinds: []string{"H264", "MPEG4Audio"}, mode: "vod", endlist: true,
+			writes: [][]rbTSWrite{{{t: 0, pts: 90000, dts: 90000, pid: 1, first: true}, {t: 1, pts: 90000, dts: 90000, pid: 2}, {t: 0, pts: 93000, dts: 93000, pid: 3}, {t: 1, pts: 92000, dts: 92000, pid: 4}},
+				{{t: 0, pts: 96000, dts: 96000, pid: 5}, {t: 1, pts: 94000, dts: 94000, pid: 6}}}}
+		return &rbScn{prim: "media", lead: true, audio: "none", must: "any", streams: []*rbScnStream{st}}
+	}
+	if probe := mkTS(); probe.streams[0].build() == nil {
+		for f := 0; f < 2; f++ {
+			for p := 0; p < len(probe.streams[0].files[f]); p += 188 {
+				sc := mkTS()
+				sc.streams[0].build()
+				sc.streams[0].files[f] = sc.streams[0].files[f][:p]
+				sc.closeAt, sc.faults, sc.fault = -1, 1, fmt.Sprintf("bytes:ts%d:trunc@%d", f, p)
+				out = append(out, sc.toCase().ops())
+			}
+		}
 	}
 	return out
 }
